@@ -102,6 +102,9 @@ class AtomGraph:
                 self.graph.nodes[node]["transition_edges"].clear()
 
             old_node_idx = transition_edge_options["node"]
+            # The atom that makes the transition is used up: it can neither be end-capped nor grow later.
+            self.graph.nodes[old_node_idx]["termination_edges"].clear()
+            self.graph.nodes[old_node_idx]["stochastic_edges"].clear()
             new_node_idx = self._add_node(
                 stochastic_graph_node_idx,
                 transition_allowed=False,
